@@ -640,3 +640,34 @@ Proof.
   - reflexivity.
   - cbn [trace nth]. rewrite IH by (cbn in Hk; lia). reflexivity.
 Qed.
+
+(* ---- any affine objective transform: what the tracker compares IS the forward transform of what it reports ---- *)
+(* a delivered pair is "paired" when the user-domain objective is the back-transform a * o + b of the optimizer-domain one *)
+Definition Paired (a b : Q) (p : item * facet) : Prop := uval p == a * oval (snd p) + b.
+
+Theorem best_affine cfg h a b : c_what cfg = Best ->
+  (forall p, In p (delivered cfg h) -> candidate (c_tol cfg) p = true -> Paired a b p) ->
+  match stored (track cfg init (map Emit h)) with
+  | None => forall p, In p (delivered cfg h) -> candidate (c_tol cfg) p = false
+  | Some (id, u) => exists p, In p (delivered cfg h) /\ id = i_id (fst p) /\ u = i_u (fst p) /\
+      candidate (c_tol cfg) p = true /\ oval u == a * oval (snd p) + b /\
+      (forall q, In q (delivered cfg h) -> candidate (c_tol cfg) q = true -> oval (snd p) <= oval (snd q)) /\
+      (0 < a -> forall q, In q (delivered cfg h) -> candidate (c_tol cfg) q = true -> oval u <= uval q) /\
+      (a < 0 -> forall q, In q (delivered cfg h) -> candidate (c_tol cfg) q = true -> uval q <= oval u)
+  end.
+Proof.
+  intros Hw HP. pose proof (best_held cfg h Hw) as H. unfold Held in H.
+  destruct (stored (track cfg init (map Emit h))) as [[id u]|]; [|exact H].
+  destruct H as (d1 & p & d2 & Hd & Hi & Hu & Hc & Hlt & Hle).
+  assert (In p (delivered cfg h)) as Hp by (rewrite Hd; apply in_elt).
+  assert (Hmin : forall q, In q (delivered cfg h) -> candidate (c_tol cfg) q = true -> oval (snd p) <= oval (snd q)).
+  { intros q Hq Hcq. rewrite Hd in Hq. apply in_app_or in Hq as [Hq|[<-|Hq]].
+    - specialize (Hlt q Hq Hcq). lra.
+    - lra.
+    - exact (Hle q Hq Hcq). }
+  pose proof (HP p Hp Hc) as Pp. unfold Paired, uval in Pp. rewrite <- Hu in Pp.
+  exists p. split; [exact Hp|]. split; [exact Hi|]. split; [exact Hu|]. split; [exact Hc|].
+  split; [exact Pp|]. split; [exact Hmin|]. split.
+  - intros Ha q Hq Hcq. pose proof (HP q Hq Hcq) as Pq. unfold Paired in Pq. specialize (Hmin q Hq Hcq). nra.
+  - intros Ha q Hq Hcq. pose proof (HP q Hq Hcq) as Pq. unfold Paired in Pq. specialize (Hmin q Hq Hcq). nra.
+Qed.
